@@ -104,6 +104,11 @@ def handle (st : DState) (line : String) : DState × String :=
         | .error _ => "err"
       (st, s!"model={out Model.sem (fun n e => Model.run a en n e)} spec={out Spec.sem (fun n e => Spec.run a en n e)} speckf={out Spec.semKF (fun n e => Spec.runKF a en n e)}")
     | _, _, _, _ => (st, "bad-unm")
+  | some (.list [.atom "storeany", .list (.atom "evs" :: evs), ar]) =>
+    -- a stream outside the Parser contract: only model = implementation is required
+    match evs.mapM decEv, decArena ar with
+    | some es, some real => (st, s!"same={if Store.build es == real then 1 else 0}")
+    | _, _ => (st, "bad-store")
   | some (.list [.atom "storemodel", .list (.atom "evs" :: evs)]) =>
     match evs.mapM decEv with
     | some es => (st, s!"arena={encArena (Store.build es)}")
